@@ -1,5 +1,37 @@
-"""Predicates over case records for known findings (see known_findings.json)."""
+"""Predicates over case records for known findings (see known_findings.json).
+
+A failing observation is attributed to an open finding only if property, facet, predicate
+(over the case) and signature (regex over the failure summary) all match.
+"""
 
 
 def always(case):
     return True
+
+
+def _rows(case):
+    """(group id or None, x, m) per row of a word case"""
+    out = []
+    for r in case["w"]:
+        kt = r[0]
+        g = None if any(k < 0 for k in kt) else tuple(kt)
+        out.append((g, r[1], r[2] if len(r) > 2 else 1))
+    return out
+
+
+def masked_row_between_selected_rows_of_a_group(case):
+    """C05 / untimed EMA: some group has a selected row, later a rejected row, later a selected row."""
+    if case.get("mask") not in ("bool", "bool_series"):
+        return False
+    state = {}
+    for g, x, m in _rows(case):
+        if g is None:
+            continue
+        st = state.get(g, 0)
+        if st == 0 and m:
+            state[g] = 1
+        elif st == 1 and not m:
+            state[g] = 2
+        elif st == 2 and m:
+            return True
+    return False
